@@ -2,6 +2,7 @@ import QuantemModel.Lemmas.Config
 import QuantemModel.Lemmas.ConfigTwin
 import QuantemModel.Lemmas.ConfigUpdate
 import QuantemModel.Lemmas.ConfigHistory
+import QuantemModel.Lemmas.ConfigWellKeyed
 /-!
 C19 — the configuration store (Model/Config.lean) behaves as a last-writer-wins nested
 map.  Only property theorems and non-vacuity examples live here.
@@ -624,6 +625,114 @@ theorem refresh_after_history (env : Env) (s : State) (ops : List HOp)
   subst h
   exact refreshP_go_ok env _ _ _ hgo
 
+
+/-! ### '-' and '_' spellings are one entry — over whole histories
+
+`WellKeyed` (`Lemmas/ConfigWellKeyed.lean`): at every level no key mixes '-' and '_' and no
+key is present in both spellings.  `set` preserves it, because `_assign` always writes under
+the spelling that is already stored; so after ANY history of `set` calls and `with` blocks a
+value can be read back under the other spelling of every path component. -/
+
+/-- the items of a `set` call use keys that do not mix the two characters and well-keyed values -/
+def ItemsOK (items : List (Key × Tree)) : Prop :=
+  ∀ kv ∈ items, (∀ c ∈ splitDots kv.1, Uniform c) ∧ WellKeyed kv.2
+
+def SetOnly : HOp → Prop
+  | .set items => ItemsOK items
+  | .withBlock items => ItemsOK items
+  | _ => False
+
+theorem wellKeyed_setItems (env : Env) (items : List (Key × Tree)) :
+    ∀ (cfg : Dict) (rec_ : List RecOp), WellKeyed (.node cfg) → ItemsOK items →
+      WellKeyed (.node (setItems env cfg rec_ items).1) := by
+  induction items with
+  | nil => intro cfg rec_ h _; simpa [setItems] using h
+  | cons kv rest ih =>
+    intro cfg rec_ h hok
+    rw [setItems]
+    split
+    · rename_i cfg1 r1 h1
+      apply ih _ _ _ (fun kv' hkv' => hok kv' (by simp [hkv']))
+      unfold setItem at h1
+      cases hc : checkKeyVal env kv.1 kv.2 with
+      | error e => simp [hc, bind, Except.bind] at h1
+      | ok v' =>
+        simp [hc, bind, Except.bind] at h1
+        have := hok kv (by simp)
+        exact wellKeyed_assign _ v' (wellKeyed_checkKeyVal env _ _ _ this.2 hc) _ _ _ _ h this.1 h1
+    · exact h
+
+/-- **the invariant holds along every history of `set` calls and `with` blocks**, raising or not -/
+theorem wellKeyed_history (env : Env) (ops : List HOp) :
+    ∀ (s : State), WellKeyed (.node s.config) → (∀ op ∈ ops, SetOnly op) →
+      WellKeyed (.node (hrun env s ops).config) := by
+  induction ops with
+  | nil => intro s h _; exact h
+  | cons op rest ih =>
+    intro s h hall
+    simp only [hrun, List.foldl_cons]
+    apply ih _ _ (fun o ho => hall o (by simp [ho]))
+    have hop := hall op (by simp)
+    cases op with
+    | set items => exact wellKeyed_setItems env items _ _ h hop
+    | withBlock items =>
+      have hw := wellKeyed_setItems env items s.config [] h hop
+      rcases hs : setItems env s.config [] items with ⟨cfg, rec_, e⟩
+      rw [hs] at hw
+      cases e with
+      | none =>
+        simp only [hstep, hs]
+        rw [with_block_restores env items s.config cfg rec_ .none hs]
+        exact h
+      | some e => simpa [hstep, hs] using hw
+    | updateDefaults new => exact absurd hop (by simp [SetOnly])
+    | refresh => exact absurd hop (by simp [SetOnly])
+
+/-- **last writer wins under the other spelling too.**  From a well-keyed state, after any
+history of `set` calls / `with` blocks (raising or not), a `set` item writes `v` to `key`;
+then any further history that does not write to the respelled path.  Reading `key` with
+EVERY component in its other '-'/'_' spelling returns `v`. -/
+theorem lww_history_twin (env : Env) (s : State) (pre post : List HOp) (its1 its2 : List (Key × Tree))
+    (key : Key) (v v' : Tree)
+    (hs : WellKeyed (.node s.config)) (hpre : ∀ op ∈ pre, SetOnly op) (h1ok : ItemsOK its1)
+    (hkey : ∀ c ∈ splitDots key, Uniform c)
+    (hv : checkKeyVal env key v = .ok v')
+    (hok : (setItems env (hrun env s pre).config [] (its1 ++ [(key, v)])).2.2 = .none)
+    (h2 : ∀ kv ∈ its2, Sep (splitDots kv.1) ((splitDots key).map altKey))
+    (hpost : ∀ op ∈ post, Leaves ((splitDots key).map altKey) op) :
+    Config.get (hrun env s (pre ++ HOp.set (its1 ++ (key, v) :: its2) :: post)).config
+      ((splitDots key).map altKey) = .ok v' := by
+  have hrun_app : hrun env s (pre ++ HOp.set (its1 ++ (key, v) :: its2) :: post) =
+      hrun env (hstep env (hrun env s pre) (HOp.set (its1 ++ (key, v) :: its2))) post := by
+    simp [hrun, List.foldl_append]
+  rw [hrun_app]
+  apply hrun_frame env _ _ _ _ hpost
+  have hw0 := wellKeyed_history env pre s hs hpre
+  generalize hrun env s pre = s0 at hok hw0 ⊢
+  simp only [hstep]
+  have hw1 := wellKeyed_setItems env its1 s0.config [] hw0 h1ok
+  rcases h1 : setItems env s0.config [] its1 with ⟨c1, r1, e1⟩
+  rw [h1] at hw1
+  rw [setItems_append, h1] at hok
+  cases e1 with
+  | some e => simp at hok
+  | none =>
+    simp only [] at hok
+    rw [setItems] at hok
+    split at hok
+    · rename_i c2 r2 hset
+      have hsame : Config.get c2 ((splitDots key).map altKey) = .ok v' := by
+        unfold setItem at hset
+        simp [hv, bind, Except.bind] at hset
+        exact get_assign_twin _ _ _ _ _ _ hkey (twinFreeAlong_of_wellKeyed _ _ hw1) hset
+      have : setItems env s0.config [] (its1 ++ (key, v) :: its2) = setItems env c2 (r1 ++ r2) its2 := by
+        rw [setItems_append, h1]
+        simp only []
+        rw [setItems, hset]
+      rw [this]
+      exact setItems_frame env _ _ its2 _ _ h2 hsame
+    · simp at hok
+
 /-! ### non-vacuity: concrete states meeting the hypotheses -/
 
 private def kab : Key := ['a', '_', 'b']
@@ -696,5 +805,28 @@ example :
     refine ⟨rfl, by decide, by decide, ?_⟩
     unfold Sep; left
     unfold Unrelated; decide
+
+/-- the hypotheses of `lww_history_twin` are satisfiable: `cfg0` is well keyed, and writing
+`a-b` is read back as `a_b` -/
+example : WellKeyed (.node cfg0) := by
+  have h1 := wellKeyed_dset [] kab (.leaf (.int 1)) wellKeyed_nil (by unfold Uniform; decide) (.leaf _)
+  have hsub := wellKeyed_dset [] kcmap (.leaf (.str "gray")) wellKeyed_nil (by unfold Uniform; decide) (.leaf _)
+  exact wellKeyed_dset _ kviz _ h1 (by unfold Uniform; decide) hsub
+example : ItemsOK [(kab', .leaf (.int 2))] ∧ (∀ c ∈ splitDots kab', Uniform c) ∧
+    (splitDots kab').map altKey = [kab] ∧
+    (setItems env0 cfg0 [] ([] ++ [(kab', .leaf (.int 2))])).2.2 = .none ∧
+    Config.get (setItems env0 cfg0 [] [(kab', .leaf (.int 2))]).1 [kab] = .ok (.leaf (.int 2)) := by
+  have hu : ∀ c ∈ splitDots kab', Uniform c := by
+    intro c hc
+    have : splitDots kab' = [kab'] := by decide
+    rw [this] at hc
+    simp at hc
+    subst hc
+    unfold Uniform; decide
+  refine ⟨?_, hu, by decide, by rfl, by rfl⟩
+  intro kv hkv
+  simp at hkv
+  subst hkv
+  exact ⟨hu, .leaf _⟩
 
 end QuantemModel.Props.C19
